@@ -249,20 +249,47 @@ def body(ctx: Ctx):
         plan = [(kw, label, n, False) for kw, label in ((dict(block_allocation=True, max_workers=1), "block"), (dict(block_allocation=False, max_cores=6), "percall"))
                 for n in ([2, 3] if ctx.tier == "quick" else [2, 3, 4, 5])]
         plan += [(dict(block_allocation=True, max_workers=1), "block", 3, True), (dict(block_allocation=False, max_cores=6), "percall", 2, True)]
+        import concurrent.futures as _cf
+        import threading as _th
+
+        def bounded_shutdown(exe):
+            t = _th.Thread(target=lambda: exe.shutdown(wait=True), daemon=True)
+            t.start()
+            t.join(30)
+            if t.is_alive():
+                from .common import kill_descendants
+
+                kill_descendants("interactive_")
+
+        def value_of(f, tmo=60):
+            try:
+                return f.result(timeout=tmo)
+            except _cf.TimeoutError:
+                return "<future still pending after %d s>" % tmo
+            except BaseException as e:  # noqa
+                return "<raised %s>" % type(e).__name__
+
         for kw, label, n, narrow in plan:
             with machine(narrow):
                 rd = {"cores": n}
                 exe = executorlib.Executor(backend="local", resource_dict=rd if label == "block" else None, **kw)
                 try:
                     futs = [exe.submit(g["f_rank"], 10 * n + j, **({} if label == "block" else {"resource_dict": {"cores": n}})) for j in range(3)]
-                    got = [f.result(timeout=120) for f in futs]
+                    got = [value_of(f, 60 if k == 0 else 5) for k, f in enumerate(futs)]
                     want = [[[r, 10 * n + j] for r in range(n)] for j in range(3)]
                     ctx.case({"executor": label, "cores": n, "one_cpu_machine": narrow}, nontrivial=True)
                     ctx.count("executor." + label + (".one_cpu_machine" if narrow else ""))
                     if got != want:
                         bad.append({"executor": label, "cores": n, "one_cpu_machine": narrow, "got": got, "want": want})
                 finally:
-                    exe.shutdown(wait=True)
+                    bounded_shutdown(exe)
+        if bad:
+            # multi-core calls already fail on plain values: report that instead of waiting through the remaining executor parts
+            ctx.oblige("real executors (block, per-call) with cores = n: future = [f(rank 0), ..., f(rank n-1)]", False)
+            ctx.violation({"kind": "multicore_result", "failing_input": True},
+                          {"what": "a multi-core call's result is not the rank-ordered list of the n return values (or never arrives)", "cases": bad[:3]})
+            return {"rule": "stopped after the first executor part", "differences": len(diffs), "ast_hashes": ast_hashes(ANCHORS)}
+
         # ---- exception objects as RETURN values (errors-as-values): delivered in the rank-ordered list like any other value
         def cx(x):
             return ["<exc>", type(x).__name__, list(x.args)] if isinstance(x, BaseException) else x
@@ -274,7 +301,7 @@ def body(ctx: Ctx):
                     f = exe.submit(g["f_ret_exc"], v, **({} if label == "block" else {"resource_dict": {"cores": 3}}))
                     want = [["<exc>", "KeyError", [v, r]] if (r + v) % 2 else [r, v] for r in range(3)]
                     try:
-                        got = [cx(x) for x in f.result(timeout=120)]
+                        got = [cx(x) for x in f.result(timeout=60)]
                     except BaseException as e:  # noqa
                         got = ["RAISED", type(e).__name__, [str(a) for a in e.args]]
                     ctx.case({"executor": label, "returns_exception_object": v}, nontrivial=True)
@@ -283,7 +310,7 @@ def body(ctx: Ctx):
                         bad.append({"executor": label, "cores": 3, "returns_exception_object": v, "got": got, "want": want})
             finally:
                 try:
-                    exe.shutdown(wait=True)
+                    bounded_shutdown(exe)
                 except BaseException:  # noqa
                     pass
         # ---- a per-call request of c ranks on an executor whose default is D ranks (c < D, c > D, unset): the call runs on
@@ -294,14 +321,14 @@ def body(ctx: Ctx):
                 futs = [(c, exe.submit(g["f_rank"], 100 * D + (c or 0), **({"resource_dict": {"cores": c}} if c else {}))) for c in cs]
                 for c, f in futs:
                     n = c or D
-                    got = f.result(timeout=120)
+                    got = value_of(f, 60)
                     want = [[r, 100 * D + (c or 0)] for r in range(n)]
                     ctx.case({"executor": "percall", "default_cores": D, "call_cores": c}, nontrivial=True)
                     ctx.count("executor.percall_vs_default")
                     if got != want:
                         bad.append({"executor": "percall", "default_cores": D, "call_cores": c, "got": got, "want": want})
             finally:
-                exe.shutdown(wait=True)
+                bounded_shutdown(exe)
         # ---- file mode: cache_parallel.py writes exactly one result file, output in rank order
         from executorlib.standalone.hdf import dump, get_output
 
@@ -341,7 +368,7 @@ def body(ctx: Ctx):
                     if got != want or len(outs) != 1:
                         bad.append({"file_executor_cores": n, "got": got, "want": want, "result_files": outs})
                 finally:
-                    exe.shutdown(wait=True)
+                    bounded_shutdown(exe)
         finally:
             shutil.rmtree(work, ignore_errors=True)
         ctx.oblige("real executors (block, per-call) with cores = n: future = [f(rank 0), ..., f(rank n-1)]; cache_parallel.py: exactly one "
